@@ -1027,7 +1027,11 @@ func NewUnaryOrNumber(op UnaryOperator, node Node) Node {
 				// Just a positive number, return it.
 				return node
 			case UnaryMinus:
-				// Just a negative number, return it with the minus sign.
+				// Just a negative number, return it with the minus sign
+				// (or without it, if it was negative already).
+				if lit, ok := strings.CutPrefix(node.literal, "-"); ok {
+					return NewNumeric(lit)
+				}
 				return NewNumeric("-" + node.literal)
 			default:
 				panic(fmt.Sprintf("Operator must be + or - but is %v", op))
@@ -1038,7 +1042,11 @@ func NewUnaryOrNumber(op UnaryOperator, node Node) Node {
 				// Just a positive number, return it.
 				return node
 			case UnaryMinus:
-				// Just a negative number, return it with the minus sign.
+				// Just a negative number, return it with the minus sign
+				// (or without it, if it was negative already).
+				if lit, ok := strings.CutPrefix(node.literal, "-"); ok {
+					return NewInteger(lit)
+				}
 				return NewInteger("-" + node.literal)
 			default:
 				panic(fmt.Sprintf("Operator must be + or - but is %v", op))
